@@ -29,7 +29,7 @@ fn set_created_at(c: &Client, gid: &GroupId, name: &str, ts: u64) -> bool {
 }
 
 /// C20 (time-to-live): snapshots keep their age across a rollback; on start-up exactly the expired ones go.
-pub fn c20_ttl(rep: &mut Report, backend: Bk) {
+pub fn c20_ttl(rep: &mut Report, backend: Bk, ttl_seconds: Option<u64>) {
     let m = ["A", "B", "Z"];
     let ad = ["A", "B"];
     // root -> b1 -> { b2 -> b3 , a2 (better than b2) }: a rollback to the middle of the queue
@@ -40,6 +40,11 @@ pub fn c20_ttl(rep: &mut Report, backend: Bk) {
         &[],
         vec![act("B", ActKind::Rename("b1".into()), 10).then(vec![act("B", ActKind::Rename("b2".into()), 30).then(vec![act("B", ActKind::Rename("b3".into()), 50)]), act("A", ActKind::Rename("a2".into()), 20)])],
     );
+    let mut sc = sc;
+    if let Some(t) = ttl_seconds {
+        // a configured time-to-live other than the default week
+        sc.cfg.snapshot_ttl_seconds = t;
+    }
     let w = match build_world(&sc, backend) {
         Ok(w) => w,
         Err(e) => {
@@ -121,7 +126,7 @@ pub fn c20_ttl(rep: &mut Report, backend: Bk) {
                     rep.case(&format!("ttl-restart|{label}|{pattern}|{margin}|{}", got.len()));
                     if !unsure && got != want {
                         rep.finding(
-                            format!("C20|ttl|{backend:?}|startup-prune-wrong|{label}"),
+                            format!("C20|ttl|{backend:?}|startup-prune-wrong|{label}|{}", if ttl_seconds.is_some() { "configured-ttl" } else { "default-ttl" }),
                             format!("after start-up the stored snapshots are {got:?}, expected exactly the unexpired ones {want:?}"),
                             json!({"scenario": sc, "backend": format!("{backend:?}"), "pattern": pattern, "margin": margin, "stored_before": before, "stored_after": got, "ttl": ttl}),
                         );
@@ -181,6 +186,119 @@ pub fn c20_retention_change(rep: &mut Report) {
                     );
                 }
             }
+        }
+    }
+    rep.states += 1;
+}
+
+/// C20 (which snapshots survive a restart): a straight run long enough for the epoch numbers to gain a digit,
+/// every stored snapshot stamped with the same second (they are usually taken within one), a restart at every
+/// position, then one more commit: the store holds exactly the `retention` most recent snapshots.
+pub fn c20_most_recent_after_restart(rep: &mut Report) {
+    let m = ["A", "B", "Z"];
+    let ad = ["A", "B"];
+    let n = 11usize;
+    let mut node = act("A", ActKind::Rename(format!("r{n}")), 10 * n as u64);
+    for k in (1..n).rev() {
+        node = act("A", ActKind::Rename(format!("r{k}")), 10 * k as u64).then(vec![node]);
+    }
+    for retention in [2usize, 3] {
+        let mut sc = base("long-chain-restart", &m, &ad, &[], vec![node.clone()]);
+        sc.cfg.epoch_snapshot_retention = retention;
+        let w = match build_world(&sc, Bk::Sqlite) {
+            Ok(w) => w,
+            Err(e) => {
+                rep.machinery_errors.push(format!("c20 long chain world: {}", e.0));
+                return;
+            }
+        };
+        let commits: Vec<usize> = w.spine.iter().skip(1).filter_map(|p| w.pool.iter().position(|e| e.kind == EvKind::Commit && e.child.as_ref() == Some(p))).collect();
+        if commits.len() != n {
+            rep.machinery_errors.push(format!("c20 long chain: expected {n} spine commits, got {}", commits.len()));
+            return;
+        }
+        let root_epoch = w.nodes[&vec![]].core.epoch;
+        let epoch_of = |name: &str| -> Option<u64> { name.split('_').rev().nth(1).and_then(|e| e.parse().ok()) };
+        for pos in retention..n {
+            let mut c = w.initial["Z"].restart_with(&sc.cfg);
+            for i in &commits[..pos] {
+                c = crate::explore::step_on(&w, c, Action::Deliver(*i)).client;
+            }
+            let stamp = now() - 30;
+            for (name, _) in list_snaps(&c, &w.gid) {
+                let _ = set_created_at(&c, &w.gid, &name, stamp);
+            }
+            let mut c = c.restart_with(&sc.cfg);
+            c = crate::explore::step_on(&w, c, Action::Deliver(commits[pos])).client;
+            let mut got: Vec<u64> = list_snaps(&c, &w.gid).iter().filter_map(|x| epoch_of(&x.0)).collect();
+            got.sort();
+            // snapshots are taken at the epochs root .. root+pos (one before every applied commit)
+            let newest = root_epoch + pos as u64;
+            let want: Vec<u64> = ((newest + 1 - retention as u64)..=newest).collect();
+            rep.case(&format!("most-recent|{retention}|{pos}|{got:?}"));
+            rep.evaluations += 1;
+            if got != want {
+                rep.finding(
+                    format!("C20|kept-snapshots-are-not-the-most-recent|after-restart|{}", if got.len() > retention { "too-many" } else { "wrong-ones" }),
+                    format!("retention {retention}, {pos} commits applied, all stored snapshots taken in one second, restart, one more commit: the store holds the snapshots of epochs {got:?}, the most recent are {want:?}"),
+                    json!({"retention": retention, "commits_before_restart": pos, "stored_epochs": got, "expected_epochs": want}),
+                );
+            }
+        }
+    }
+    rep.states += 1;
+}
+
+/// C18 (pointer on the sender's side): a member stores a peer's message whose created_at lies ahead of its own clock
+/// and then writes messages of its own with older, equal and newer created_at; after every step the last-message
+/// pointer names the head of the default order.
+pub fn c18_own_messages_pointer(rep: &mut Report, backend: Bk) {
+    let sc = base("own-message-pointer", &["A", "B", "Z"], &["A"], &[], vec![act("B", ActKind::Msg("from-a-clock-ahead".into()), 5)]);
+    let w = match build_world(&sc, backend) {
+        Ok(w) => w,
+        Err(e) => {
+            rep.machinery_errors.push(format!("c18 own-message world: {}", e.0));
+            return;
+        }
+    };
+    let peer = w.pool.iter().position(|p| p.kind == EvKind::Msg).unwrap();
+    let peer_ts = w.pool[peer].rumor.as_ref().map(|r| r.created_at.as_secs()).unwrap_or(0);
+    // own messages relative to the peer's: older, the same second, newer; before and after the peer's arrives
+    for own_first in [false, true] {
+        for (label, ts) in [("older", peer_ts - 50), ("same-second", peer_ts), ("newer", peer_ts + 50)] {
+            let z = w.initial["Z"].fork();
+            let mut steps: Vec<String> = Vec::new();
+            let mut check = |z: &Client, steps: &Vec<String>, rep: &mut Report| {
+                if let Some(go) = z.group_obs(&w.gid) {
+                    rep.evaluations += 1;
+                    if let Some(mm) = crate::props_e1::pointer_mismatch(&go) {
+                        rep.finding(
+                            format!("C18|pointer-not-head-of-valid-messages|own-message-{label}-than-the-stored-head|{}|{backend:?}", if own_first { "own-first" } else { "peer-first" }),
+                            format!("after [{}] the last-message pointer is not the head of the default order: {mm:?}", steps.join(" ; ")),
+                            json!({"steps": steps, "backend": format!("{backend:?}"), "mismatch": format!("{mm:?}")}),
+                        );
+                    }
+                }
+            };
+            if !own_first {
+                let r = z.process(&w.pool[peer].event);
+                steps.push(format!("process(peer message @{peer_ts}) -> {}", result_kind(&r)));
+                check(&z, &steps, rep);
+            }
+            let own = with_mdk!(z, m => m.create_message(&w.gid, rumor(&z.keys, &format!("own-{label}"), ts)));
+            steps.push(format!("create_message(own @{ts}) -> {}", if own.is_ok() { "Ok" } else { "Err" }));
+            check(&z, &steps, rep);
+            if own_first {
+                let r = z.process(&w.pool[peer].event);
+                steps.push(format!("process(peer message @{peer_ts}) -> {}", result_kind(&r)));
+                check(&z, &steps, rep);
+            }
+            if let Ok(ev) = own {
+                let r = z.process(&ev);
+                steps.push(format!("process(own echo) -> {}", result_kind(&r)));
+                check(&z, &steps, rep);
+            }
+            rep.case(&format!("own-pointer|{backend:?}|{own_first}|{label}"));
         }
     }
     rep.states += 1;
